@@ -32,6 +32,20 @@ def main(argv):
         print("ANALYSIS-ERROR property=%s no rule set: %s" % (pid, e))
         return core.EXIT_ANALYSIS
     ctx = core.Ctx(pid, tier)
+    # a check must never hang: after the budget it stops as an analysis error (exit 2) and takes its worker processes along
+    import signal
+
+    def _timeout(_sig, _frm):
+        print("ANALYSIS-ERROR property=%s time budget of the %s tier exceeded" % (pid, tier))
+        sys.stdout.flush()
+        try:
+            import multiprocessing
+            for ch in multiprocessing.active_children():
+                ch.terminate()
+        finally:
+            os._exit(core.EXIT_ANALYSIS)
+    signal.signal(signal.SIGALRM, _timeout)
+    signal.alarm(int(os.environ.get("XFAB_BUDGET_S", "900" if tier == "quick" else "3600")))
     try:
         explanation = mod.run(ctx)
         if tier == "thorough" and not os.environ.get("XFAB_SELFTEST_CHILD"):
